@@ -1,4 +1,5 @@
 import FlowCalModel.Excel
+import FlowCalModel.Generated
 /-!
 # C10 — Excel results equal the documented library steps applied by hand
 -/
@@ -58,5 +59,14 @@ example : samplePlan ⟨"FSC", "SSC", ["FL1", "FL2", "FL3", "FL4"], [("FL2", som
     = .ok [.toRfi ["FSC", "SSC"], .toRfi ["FL1"], .toMef "FL1", .toRfi ["FL2"], .startEnd 250 100,
            .highLow ["FSC", "SSC", "FL1", "FL2", "FL4"], .density2d ["FSC", "SSC"]] := by decide
 example : samplePlan ⟨"FSC", "SSC", ["FL1"], [("FL1", some ['f','u','r'])], false⟩ = .error .unitsNotRecognized := by decide
+
+/-- the library calls of `process_samples_table`, their constant arguments and guards, as found in the source now (regenerated on
+every run), are the ones the plan model stands for -/
+theorem pipeline_matches_source : Generated.samplePipelineCalls = pipelineSpec := rfl
+
+/-- every per-channel result column is filled by the library statistic of the same name, geometric ones on the positive events -/
+theorem stat_functions_match_source : Generated.statColumnFunctions = statSpec := rfl
+
+theorem positive_rule_matches_source : Generated.positiveEventsRule = positiveRuleSpec := rfl
 
 end FlowCal.C10
